@@ -123,8 +123,11 @@ CONN_PLANS = {
         'own': 'C01',
         'models': {'quick': [('u3dup', C({1, 2, 3}, M(), dup=1, unk=1)),
                              ('u3dupP', C({1, 2, 3}, M(cp=True, sp=True), dup=1, unk=1))],
-                   'thorough': [('u4dup', C({1, 2, 5, 6}, M(), dup=1, unk=1)),
-                                ('u4dupD', C({1, 2, 5, 6}, M(cd=True, sd=True), dup=2, unk=1)),
+                   # (4 calls without pipelining do not finish: > 300 s at 16 workers even without faults - measured; 4 calls are
+                   #  explored in the pipelined modes, 3 calls with more faults elsewhere)
+                   'thorough': [('u3dup2', C({1, 2, 3}, M(), dup=2, unk=1)),
+                                ('u3dupD', C({1, 2, 3}, M(cd=True, sd=True), dup=2, unk=1)),
+                                ('u3dupS', C({1, 2, 6}, M(sp=True), dup=2, unk=1)),
                                 ('u4dupP', C({1, 2, 5, 6}, M(cp=True, sp=True), dup=2, unk=1))]},
         'devs': [('wrongseq', ['EchoWrongSeq'], C({1, 2, 3}, M())),
                  ('seqreuse', ['SeqReuse'], C({1, 2, 3}, M())),
@@ -139,7 +142,9 @@ CONN_PLANS = {
     'C02': {
         'own': 'C02',
         'models': {'quick': [('u3f', C({1, 2, 3}, M(), wfail=1, cut=1, loss=1, close=1))],
-                   'thorough': [('u3f', C({1, 2, 3}, M(), wfail=1, cut=1, loss=1, close=1, dup=1, unk=1)),
+                   # (all six fault classes at once do not finish in 600 s; two instances of five: 15 M and 24 M states, ~3.5 min each)
+                   'thorough': [('u3fd', C({1, 2, 3}, M(), wfail=1, cut=1, loss=1, close=1, dup=1)),
+                                ('u3fu', C({1, 2, 3}, M(), wfail=1, cut=1, loss=1, close=1, unk=1)),
                                 ('u3p', C({1, 2, 3}, M(cp=True, sp=True), wfail=1, cut=1, loss=1, close=1, dup=1)),
                                 ('u3d', C({1, 2, 3}, M(cd=True, sd=True), wfail=1, cut=1, loss=1, close=1, dup=1))]},
         'devs': [('sweepkeep', ['SweepKeepsEntries', 'WriteFailAlwaysCompletes'], C({1, 2, 3}, M(), wfail=1, cut=1, close=1)),
@@ -173,9 +178,10 @@ CONN_PLANS = {
         'own': 'C04',
         'models': {'quick': [('u3', C({1, 2, 3}, M(), dup=1, cut=1, loss=1)),
                              ('u3sp', C({1, 2, 3}, M(sp=True, sd=True), dup=1, cut=1, loss=1))],
-                   'thorough': [('u4', C({1, 2, 3, 5}, M(), dup=1, cut=1, loss=1)),
-                                ('u4sp', C({1, 2, 3, 5}, M(sp=True), dup=1, cut=1, loss=2)),
-                                ('u4sd', C({1, 2, 3, 5}, M(sd=True), dup=1, cut=1, loss=2))]},
+                   'thorough': [('u3', C({1, 2, 3}, M(), dup=1, cut=1, loss=2)),
+                                ('u3sp', C({1, 2, 6}, M(sp=True), dup=1, cut=1, loss=2)),
+                                ('u3sd', C({1, 2, 3}, M(sd=True), dup=1, cut=1, loss=2)),
+                                ('u4pp', C({1, 2, 3, 5}, M(cp=True, sp=True), dup=1, cut=1, loss=1))]},
         'devs': [('dupexec', ['DupExec'], C({1, 2, 3}, M())),
                  ('pinghandler', ['PingRunsHandler'], C({1, 2, 3}, M())),
                  ('dupexecP', ['DupExec'], C({1, 2, 3}, M(sp=True)))],
@@ -211,9 +217,9 @@ CONN_PLANS = {
         'stress': st_c06,
         'models': {'quick': [('u3e', C({1, 2, 6}, M(), mfail=1, dup=1)),
                              ('u3eP', C({1, 2, 6}, M(cp=True, sp=True), mfail=1))],
-                   'thorough': [('u4e', C({1, 2, 5, 6}, M(), mfail=1, dup=1, unk=1)),
+                   'thorough': [('u3e', C({1, 2, 6}, M(), mfail=1, dup=1, unk=1)),
                                 ('u4eP', C({1, 2, 5, 6}, M(cp=True, sp=True), mfail=1, dup=1)),
-                                ('u4eD', C({1, 2, 5, 6}, M(cd=True, sd=True), mfail=1, dup=1))]},
+                                ('u3eD', C({1, 2, 6}, M(cd=True, sd=True), mfail=1, dup=1, unk=1))]},
         'devs': [('wrongseq', ['EchoWrongSeq'], C({1, 2, 6}, M()))],
         'sims': [('np', C({1, 2, 5, 6, 10}, M(), mfail=2, dup=1, unk=1)),
                  ('pp', C({1, 2, 5, 6, 10}, M(cp=True, sp=True), mfail=2, dup=1)),
@@ -223,7 +229,8 @@ CONN_PLANS = {
         'own': 'C19',
         'models': {'quick': [('x3', C({1, 4, 8}, M(), dup=1, ctx=None)),
                              ('x3c', C({1, 4}, M(), cut=1, close=1, ctx=None))],
-                   'thorough': [('x4', C({1, 2, 4, 8}, M(), dup=1, cut=1, ctx=None)),
+                   'thorough': [('x3d', C({1, 4, 8}, M(), dup=1, cut=1, ctx=None)),
+                                ('x3w', C({1, 2, 4}, M(cd=True, sd=True), dup=1, cut=1, close=1, ctx=None)),
                                 ('x4P', C({1, 2, 4, 8}, M(cp=True, sp=True), dup=1, ctx=None))]},
         'devs': [],
         'sims': [('np', C({1, 2, 4, 8}, M(), dup=1, ctx=None)),
@@ -1209,7 +1216,7 @@ def c12_check(pid, tier, replay_file=None):
              'poll': c['poll'], 'srvpipe': c['srvpipe'], 'srvdirect': c['srvdirect'], 'ctxbuf': c['ctxbuf'], 'nocopy': c['nocopy'],
              'clipipe': c['clipipe'], 'clidirect': c['clidirect'], 'bufsize': c['bufsize'], 'conns': 2, 'callers': 2,
              'calls': 16 if tier == 'quick' else 10, 'seed': 4242 + seed(), 'failevery': 4, 'missevery': 7, 'frag': 9 if c['network'] == 'frag' else 0,
-             'readers': 2 if c['poll'] else 0, 'sizes': [0, 1, 20, 127, 128, 600, 5000, 66000, 80000]}
+             'readers': 2 if c['poll'] else 0, 'sizes': [0, 1, 20, 127, 128, 600, 3500, 5000, 66000, 70300, 80000]}
         if c['network'] == 'ws':
             w.update({'oneatatime': True, 'forms': 'call,ctx', 'callers': 1, 'calls': 2 * w['calls']})
         work.append(w)
